@@ -173,7 +173,7 @@ def judge_records(rxns, cap, alone_cmp=True):
             m = Chem.MolFromSmiles(smi)
             if q is None or m is None or not m.HasSubstructMatch(q):
                 bad.append((["attribution", "pattern-not-contained"], "row {} of {}: pattern {} is not contained in {}".format(i, rxns, pat, smi)))
-        if alone_cmp:
+        if alone_cmp is True or (alone_cmp and i in alone_cmp):
             a = alone_record(rxns[i])
             mine = {k: rec.get(k) for k in ("mcs_results", "sorted_reactants", "issue", "smiles", "boundary_atoms_products", "nearest_neighbor_products")}
             if a is not None and mine != a:
@@ -227,6 +227,18 @@ def schedule_job(job):
     return {"n": n, "bad": bad, "outcomes": len(outcomes)}
 
 
+def _unaffected_rows(dev, cap):
+    """a timed-out search job names its row (label ...@id=k,...): every OTHER row must carry exactly its
+    alone-run record; a cancelled RDKit call does not name its row, there only the attribution clauses are judged"""
+    import re as _re
+
+    hit = [_re.search(r"@id=(\d+)", lab) for lab, _ in dev.values()]
+    if not dev or not all(hit):
+        return False
+    ids = {int(m.group(1)) for m in hit}
+    return {i for i, r in enumerate(cap.get("in", [])) if r.get("id") is not None and int(r["id"]) not in ids}
+
+
 def cancel_job(job):
     """every single cancelled RDKit search (its own time budget expired) of a batch: every record
     that is still reported without an issue must satisfy the attribution clauses"""
@@ -236,11 +248,12 @@ def cancel_job(job):
 
     def on_exec(dev, cap, ctl):
         n[0] += 1
-        b, _ = judge_records(list(rxns), cap, alone_cmp=False)
+        b, _ = judge_records(list(rxns), cap, alone_cmp=_unaffected_rows(dev, cap))
         for k, w in b:
             bad.append({"key": ["cancelled-search"] + k, "what": w + " faults={}".format(explore.dev_to_json(dev)), "dev": explore.dev_to_json(dev)})
 
-    explore.subtree(lambda: observe_find(rxns), {}, ("rdkit",), 1, on_exec=on_exec, rdkit_alts=("normal", "cancel"))
+    explore.subtree(lambda: observe_find(rxns), {}, ("rdkit", "pool"), 1, on_exec=on_exec, rdkit_alts=("normal", "cancel"),
+                    pool_alts=("complete", "timeout"))
     return {"n": n[0], "bad": bad}
 
 
@@ -303,7 +316,8 @@ def run(tier, seed):
     for j, x in zip(sj, rs):
         for b in x["bad"]:
             res.add(Violation("schedule", {"rxns": j["rxns"], "iso": j["iso"], "deviations": b["dev"]}, None, None, b["key"], b["what"]))
-    cancel_batches = [[MCS_BOUND[1], MCS_BOUND[4]], [MCS_BOUND[9], MCS_BOUND[0]], [MCS_BOUND[7], MCS_BOUND[5]]]
+    cancel_batches = [[MCS_BOUND[1], MCS_BOUND[4]], [MCS_BOUND[9], MCS_BOUND[0]], [MCS_BOUND[7], MCS_BOUND[5]],
+                      [MCS_BOUND[1], MCS_BOUND[4], MCS_BOUND[0]]]
     rcn = pmap("checks.c10:cancel_job", [{"rxns": b} for b in cancel_batches], chunk=1, seed=seed, timeout=7200)
     for b, x in zip(cancel_batches, rcn):
         n_exec += x["n"]
@@ -336,7 +350,7 @@ def run(tier, seed):
         "rule": "(i) every table of 3 conditions x 1 reaction over 11 entry shapes and x 2 reactions over {} shapes{} through "
                 "get_largest_condition vs argmax reference; (ii) every ordered sub-batch of size 1..2{} of 10 MCS-bound + 2 "
                 "solved reactions observed at MCSSearch.find inside real runs, plus every single{} task-order deviation at the "
-                "stage's Parallel calls for 3 batches, and every single cancelled RDKit search of 3 two-row batches{}.".format(
+                "stage's Parallel calls for 3 batches, and every single cancelled RDKit search / timed-out search job of 4 batches (rows without a fault must carry their alone-run record){}.".format(
                     len(two), " and 3 reactions over 4 shapes" if thorough else "",
                     " and every triple" if thorough else " and 60 covering triples", " and double" if thorough else "",
                     "; complete corpus" if thorough else ""),
@@ -357,8 +371,9 @@ def replay(v):
         return [Violation(v.sub, c, None, None, b["key"], b["what"]) for b in x["bad"] if b["key"] == v.key]
     if v.sub == "cancelled-search":
         dev = explore.dev_from_json(c["deviations"])
-        cap, _ = explore.execute(lambda: observe_find(c["rxns"]), dev, ("rdkit",), rdkit_alts=("normal", "cancel"))
-        bad, _ = judge_records(c["rxns"], cap, alone_cmp=False)
+        cap, _ = explore.execute(lambda: observe_find(c["rxns"]), dev, ("rdkit", "pool"), rdkit_alts=("normal", "cancel"),
+                                 pool_alts=("complete", "timeout"))
+        bad, _ = judge_records(c["rxns"], cap, alone_cmp=_unaffected_rows(dev, cap))
         return [Violation(v.sub, c, None, None, ["cancelled-search"] + k, w) for k, w in bad if ["cancelled-search"] + k == v.key]
     if v.sub == "schedule":
         dev = explore.dev_from_json(c["deviations"])
